@@ -206,13 +206,20 @@ def tv_design(name, d, ios):
     # memory words and memory-port registers: compared with the reset input low (the simulator's MemoryToArray + insert_resets restores
     # memory contents and port registers while rst is high, the emitted memory template does not: tracked as a listed finding below)
     rst_low = [fts.rd(cd.rst) == 0] if cd is not None and cd.rst is not None else []
+    # memories whose depth is not a power of two: the comparison is made for in-range port addresses (out of range the simulator's
+    # Array proxy clamps to the last word while the Verilog access falls outside the array; stated in ASSUMPTIONS)
+    addr_ok = []
+    for mem in fts.mems:
+        for port in mem.ports:
+            if (1 << port.adr.nbits) > mem.depth and port.adr in fts.var:
+                addr_ok.append(z3.ULT(fts.rd(port.adr), z3.BitVecVal(mem.depth, port.adr.nbits)))
     rbad = []
     for g, e in goals_norst.items():
-        solver.push(); solver.set("timeout", 30000); solver.add(*rst_low); solver.add(z3.Not(e)); rr = solver.check(); solver.pop()
+        solver.push(); solver.set("timeout", 30000); solver.add(*rst_low); solver.add(*addr_ok); solver.add(z3.Not(e)); rr = solver.check(); solver.pop()
         if rr == z3.sat: bad.append(g)
         elif rr != z3.unsat: unk.append(g)
-        if rst_low:
-            solver.push(); solver.set("timeout", 30000); solver.add(fts.rd(cd.rst) == 1); solver.add(z3.Not(e)); rr = solver.check(); solver.pop()
+        if cd is not None and cd.rst is not None:
+            solver.push(); solver.set("timeout", 30000); solver.add(*addr_ok); solver.add(fts.rd(cd.rst) == 1); solver.add(z3.Not(e)); rr = solver.check(); solver.pop()
             if rr == z3.sat: rbad.append(g)
     goals.update(goals_norst)
     init_bad = []; port_noinit = []
@@ -232,7 +239,7 @@ def tv_design(name, d, ios):
     if port_noinit:
         out.append(res(f"finding.port-reg-init[{name}]", "finding-witness", VIOLATED, 0, "executed", differing=port_noinit[:3],
                        what="a register that is a module port and has a non-zero reset value is declared without initialiser ('output reg [..] x,'): its Verilog power-up value is not the simulator's initial value until a reset pulse is applied"))
-    if goals_norst and rst_low:
+    if goals_norst and cd is not None and cd.rst is not None:
         out.append(res(f"finding.memory-under-reset[{name}]", "finding-witness", VIOLATED if rbad else PROVED, 0, "z3-5.1.0(api)", differing=rbad[:3],
                        what="while the reset input is high the simulator (MemoryToArray + insert_resets) restores memory words to their init values and resets memory-port registers; the emitted Verilog memory template has no reset"))
     return out
@@ -287,6 +294,59 @@ def _corpus():
             self.comb += Case(self.sel, {0: self.p.eq(self.b), 1: self.p.eq(self.a), "default": self.p.eq(self.b - self.a)})
             self.sync += [self.q.eq(self.q + self.a), If(self.sel[0], arr[self.sel[1]].eq(self.a)), Case(~self.sel, {1: self.q[0:2].eq(3), 2: self.q.eq(self.b)})]
     C.append(("statement-nests", lambda: (lambda d: (d, {d.a, d.b, d.sel, d.o, d.p, d.q, d.r0, d.r1}))(Stmts())))
+    # second batch: more of the real LiteX library (interconnect, bridges, packet, peripherals)
+    from litex.soc.interconnect import packet, axi, ahb
+    from litex.soc.cores import timer as _timer, uart as _uart, spi as _spi
+    from litex.soc.interconnect.csr_eventmanager import EventManager, EventSourceProcess, EventSourcePulse
+    from litex.gen.genlib.misc import WaitTimer
+    C.append(("StrideConverter(8->24)", lambda: (lambda d: (d, eps(d)))(stream.StrideConverter([("data", 8)], [("data", 24)]))))
+    C.append(("Pack(3)", lambda: (lambda d: (d, eps(d)))(stream.Pack([("data", 4)], 3))))
+    C.append(("Unpack(3)", lambda: (lambda d: (d, eps(d)))(stream.Unpack(3, [("data", 4)]))))
+    C.append(("Buffer", lambda: (lambda d: (d, eps(d)))(stream.Buffer([("data", 8)]))))
+    def pkt(kind, length):
+        hdr = packet.Header({"a": packet.HeaderField(0, 0, 8), "b": packet.HeaderField(1, 0, 16), "c": packet.HeaderField(3, 0, (length - 3) * 8)}, length, swap_field_bytes=True)
+        withp = stream.EndpointDescription([("data", 32)], hdr.get_layout()); raw = stream.EndpointDescription([("data", 32)])
+        d = packet.Packetizer(withp, raw, hdr) if kind == "p" else packet.Depacketizer(raw, withp, hdr); return d, eps(d)
+    C.append(("Packetizer(32,8B)", lambda: pkt("p", 8))); C.append(("Packetizer(32,6B,unaligned)", lambda: pkt("p", 6)))
+    C.append(("Depacketizer(32,8B)", lambda: pkt("d", 8))); C.append(("Depacketizer(32,6B,unaligned)", lambda: pkt("d", 6)))
+    C.append(("PacketFIFO(4,2)", lambda: (lambda d: (d, eps(d)))(packet.PacketFIFO(stream.EndpointDescription([("data", 8)], [("p", 3)]), 4, 2))))
+    def cache():
+        m = wishbone.Interface(data_width=32, adr_width=8); s_ = wishbone.Interface(data_width=32, adr_width=8); d = wishbone.Cache(8, m, s_); return d, set(m.flatten()) | set(s_.flatten())
+    C.append(("wishbone.Cache(8)", cache))
+    def axil(kind):
+        def io(*itfs):
+            o = set()
+            for i in itfs:
+                for ch in ("aw", "w", "b", "ar", "r"): o |= set(getattr(i, ch).flatten())
+            return o
+        if kind == "sram":
+            b_ = axi.AXILiteInterface(data_width=32, address_width=12); d = axi.AXILiteSRAM(64, bus=b_, init=[5, 6, 7]); return d, io(b_)
+        if kind == "down":
+            m = axi.AXILiteInterface(data_width=32, address_width=16); s_ = axi.AXILiteInterface(data_width=16, address_width=16); d = axi.AXILiteDownConverter(m, s_); return d, io(m, s_)
+        if kind == "ic":
+            ms = [axi.AXILiteInterface(data_width=32, address_width=32) for _ in range(2)]; ss = [axi.AXILiteInterface(data_width=32, address_width=32) for _ in range(2)]
+            d = axi.AXILiteInterconnectShared(ms, [(lambda a: a[28:] == 0, ss[0]), (lambda a: a[28:] == 1, ss[1])], timeout_cycles=16); return d, io(*ms, *ss)
+        if kind == "axi2axil":
+            m = axi.AXIInterface(data_width=32, address_width=16, id_width=2); s_ = axi.AXILiteInterface(data_width=32, address_width=16); d = axi.AXI2AXILite(m, s_); return d, io(m, s_)
+        if kind == "axil2wb":
+            m = axi.AXILiteInterface(data_width=32, address_width=16); w = wishbone.Interface(data_width=32, adr_width=14); d = axi.AXILite2Wishbone(m, w, 0x400); return d, io(m) | set(w.flatten())
+    for k_ in ("sram", "down", "ic", "axi2axil", "axil2wb"): C.append((f"axi.{k_}", (lambda k_=k_: axil(k_))))
+    def ahbw():
+        a = ahb.AHBInterface(data_width=32, address_width=16); w = wishbone.Interface(data_width=32, adr_width=14); d = ahb.AHB2Wishbone(a, w); return d, set(a.flatten()) | set(w.flatten())
+    C.append(("AHB2Wishbone", ahbw))
+    C.append(("WaitTimer(11)", lambda: (lambda d: (d, {d.wait, d.done}))(WaitTimer(11))))
+    def evm():
+        class T(Module, AutoCSR):
+            def __init__(self):
+                self.submodules.ev = EventManager(); self.ev.a = EventSourcePulse(name="a"); self.ev.b = EventSourceProcess(name="b", edge="falling"); self.ev.finalize()
+        d = T(); ev = d.ev
+        return d, {ev.a.trigger, ev.b.trigger, ev.irq, ev.pending.re, ev.pending.r, ev.pending.status, ev.status.status, ev.enable.storage}
+    C.append(("EventManager(pulse,falling)", evm))
+    def txphy():
+        class P:
+            def __init__(self): self.tx = Signal(name="tx"); self.rx = Signal(name="rx")
+        pads = P(); d = _uart.RS232PHYTX(pads, 2**29); return d, {pads.tx} | set(d.sink.flatten())
+    C.append(("RS232PHYTX", txphy))
     return C
 
 def c_design(name):
@@ -340,5 +400,5 @@ def cases(tier):
 
 ASSUMPTIONS = ["vf/vexpr.py + vf/vlog.py are a hand-written specification of IEEE 1364-2005 for the emitted subset (self-determined/context widths, sign rules, $signed, concatenation, part-select writes, memories, $readmemh); anything outside the grammar is reported undecided",
                "the simulator side of symbolic obligations is fhdl2smt (transcription of Evaluator), guarded by exhaustive comparison with the REAL Evaluator on narrow instances and by co-simulation in the other properties",
-               "corpus of programs (not all programs): single-clock designs; Instance specials, multi-clock memories (printer rewrites the port mode) and timing are outside the validated subset",
+               "corpus of programs (not all programs): single-clock designs; Instance and MultiReg specials, multi-clock memories (printer rewrites the port mode) and timing are outside the validated subset; memories of non-power-of-two depth are compared for in-range port addresses (out of range the simulator clamps to the last word)",
                "known finding classes (inherited Migen semantics: intermediate overflow under a context-opaque consumer; LiteX: negative constants printed as unsigned literals) are tracked as listed findings"]
